@@ -201,7 +201,7 @@ std_check("C02", [("xfer_clean", 30, 400), ("xfer", 40, 800), ("peer_recv", 24, 
           ["C02.IdleWrite", "C02.IdleShutdown", "C02.NoStall", "C02.Silence", "C02.CompletesOk", "C02.ReaderWoken"],
           assumptions=["liveness of the code is observed as completion without failure in virtual time over the explored schedules",
                        "application pauses and network delays stay below the configured inactivity timeout; the SYN itself is not dropped"])
-std_check("C03", [("close", 120, 2000), ("xfer", 20, 300), ("peer_recv", 32, 500)] + KF,
+std_check("C03", [("close", 120, 2000), ("xfer", 20, 300), ("peer_recv", 32, 500), ("peer_send", 60, 600)] + KF,
           ["C03.FlushHonest", "C03.EofOnlyAfterFin", "C03.SuccessMeansDelivered", "C03.AbortSurfaces", "C03.FinInSequence"],
           parts=[("ooq", ["C03."]), ("utx", ["C03."])], model_spec=CLOSE_MODEL)
 std_check("C04", [("peer_recv", 100, 1500), ("xfer", 30, 400)] + KF,
@@ -216,7 +216,7 @@ std_check("C06", [("peer_send", 120, 2000), ("xfer", 30, 400)] + KF,
           parts=[("segs", ["C06.", "Segs."]), ("recov", ["C06.", "Recov."])])
 std_check("C07", [("peer_recv", 120, 2000), ("xfer_clean", 20, 200)],
           ["C07.NoSpontaneousAck", "C07.DelayedAck", "C07.ImmediateAck"])
-std_check("C08", [("close", 100, 1500), ("many", 40, 600), ("flood_close", 12, 100)],
+std_check("C08", [("close", 100, 1500), ("many", 40, 600), ("flood_close", 12, 100), ("sockpeer", 20, 200)],
           ["C08.SlotFreed", "C08.EndsInTime"], model_spec=CLOSE_MODEL + SOCK_MODEL)
 std_check("C12", [("many", 80, 1200), ("backlog", 6, 60), ("evict", 16, 64), ("sockpeer", 24, 300)],
           ["C12.KeyUnique", "C12.LimitRespected", "C12.TableAgrees", "C12.RouteAgrees", "C12.DeliverToNamed", "C12.NoEviction",
